@@ -201,11 +201,11 @@ class Elf(BinFormat):
     def getfileoffset(self, target):
         "converts given target virtual address back to offset in file"
         s, offset, base = self.getinfo(target)
-        if s != None:
-            result = s.p_offset + offset
-        else:
-            result = None
-        return result
+        if s is None:
+            return None
+        if isinstance(s, Phdr):
+            return s.p_offset + offset
+        return s.sh_offset + offset
 
     def readsegment(self, S):
         "returns segment S data padded to S.p_memsz"
